@@ -259,6 +259,7 @@ RARE_FORMS = [
     # numbers and strings
     "x = 0x_ff + 0b_1010 | 0o_17\n", "x = 0XAB_cd + 0B1 + 0O7\n", "x = 1_000.000_1e1_0 + 1E5 + 1e-5J\n", "x = .5 + 5. + 5.e3 + .5j\n", "x = 00 + 0_0 + 0e0 + 00.5 + 09.5 + 09e1j\n",
     "x = 1if y else 2\n" if False else "x = (1)if y else(2)\n", "x = 'a' \"b\" '''c''' \"\"\"d\"\"\"\n", "x = b'a' B\"b\" rb'\\d' Rb'\\d' bR'x' BR'y'\n", "x = u'a' U'b' r'\\n' R'\\n'\n", "x = 'it''s' \"q\\\"q\" '\\N{EM DASH}' 'a\\x41\\u00e9\\0'\n",
+    "s = 'a\\\nb'\n", 't = "x \\\n y" + "z"\n', "u = b'a\\\nb'\n",
     # calls, subscripts, slices, stars
     "f(a, *b, c, *d, k=1, **e, **f)\n", "f(a,)\n", "f(*a,)\n", "f(**a,)\n", "f(x for x in y)\n", "f(a, (x for x in y))\n", "f(a := 1, b=(c := 2))\n",
     "a[::]\n", "a[b:c, d:e, ...]\n", "a[*b]\n", "a[*b, c]\n", "a[b:=1]\n" if False else "a[(b:=1)]\n", "a[1:2:3, ::2, :, 1]\n", "a[()]\n", "a[b,]\n",
